@@ -24,15 +24,18 @@ TEXT = {
         "technique": "Lean 4 proof (loop invariant by induction on fuel, queue-partition lemma for recovery) + differential correspondence with spec evaluated on the implementation",
     },
     "C05": {
-        "text": "C05_sound / C05_invalid / C05_accept_satisfies are proved in Lean for every rule shape, every principal and key "
-                "iteration order, every Git signature and every envelope (no bound on principals, keys or signatures): a successful "
-                "SignatureVerifier.Verify returns >= threshold distinct principals of the rule, injectively credited through their own "
-                "keys with valid signatures over exactly this object/envelope, at most one through the Git signature; threshold<1 or "
-                "no principals is never satisfied. The model is compared with the real Verify (verifiers from FindVerifiersForPath, real "
-                "ed25519 signatures) under every map iteration order; the spec is also evaluated on the implementation's own output, "
-                "including completeness for key-disjoint principals.",
-        "note": TB + "Completeness for key-disjoint principals (C05_exact) is so far checked on the implementation's output by the driver, not yet a theorem. Only SSH keys are generated.",
-        "technique": "Lean 4 proof (invariant over the principal loop) + differential correspondence",
+        "text": "Proved in Lean for every rule shape, every principal and key iteration order, every Git signature and every envelope (no "
+                "bound on principals, keys or signatures). Soundness (C05_sound, C05_accept_satisfies, invariant over the principal loop): "
+                "a successful SignatureVerifier.Verify returns >= threshold distinct principals of the rule, injectively credited through "
+                "their own keys with valid signatures over exactly this object / envelope, at most one through the Git signature; the same "
+                "bookkeeping holds for the set reported with 'conditions unmet' (C05_unmet_credited); threshold < 1 or no principals is "
+                "never satisfied (C05_invalid). Completeness (C05_complete_env): when the principals share no keys, the rule is satisfied "
+                "whenever at least threshold of them signed the envelope. The model is compared with the real Verify (verifiers from "
+                "FindVerifiersForPath, real ed25519 signatures) under every map iteration order; both directions are also evaluated on "
+                "the implementation's own output.",
+        "note": TB + "Completeness is proved for envelope signers (no Git object); with a Git signature it is evaluated on the implementation only. "
+                "Only SSH keys are generated. An envelope without any signature makes Verify fail hard (modelled; finding F28).",
+        "technique": "Lean 4 proof (invariants over the principal loop, counting by injectivity) + differential correspondence",
     },
     "C13": {
         "text": "Proved in Lean for the model of the tufv01/tufv02 mutators, for arbitrary (also invalid) arguments and arbitrary finite "
